@@ -22,9 +22,9 @@ from fractions import Fraction
 import numpy as np
 
 PROP = 'C06'
-TARGETS = ['T6a', 'T6b', 'T6c', 'T6d', 'T6e', 'T6f']
+TARGETS = ['T6a', 'T6b', 'T6c', 'T6d', 'T6e', 'T6f', 'T6g']
 LEAN_MODULES = ['HdVerif.Props.C06']
-MODEL_MODULES = ['HdVerif.Model.PixelPipeline']
+MODEL_MODULES = ['HdVerif.Model.PixelPipeline', 'HdVerif.Generated.T6g']
 NAMESPACE = 'HdVerif.C06'
 DRIVER = 'Drivers/C06.lean'
 RULE = ('streams: flags (every (colour type, presence pattern) row x flag tuples through get_frame: all 46 656 cells in thorough, a sample in '
@@ -850,6 +850,7 @@ def run(ctx):
     stream_placement(ctx, reqs, pending)
     stream_objects(ctx, reqs, pending)
     stream_paths(ctx, reqs, pending)
+    stream_dtype(ctx, reqs, pending)
     settle(ctx, reqs, pending)
 
 
@@ -1701,3 +1702,44 @@ def stream_paths(ctx, reqs, pending):
         for k, j, P, f in items:
             one = ('ok', got_slices(k)) if res[0] == 'ok' else res
             check_call(ctx, dict(case, slice=k, source=j), P, f, flags, opts, one, 'paths/' + path, hist=False)
+
+
+# ---------------------------------------------------------------------------- output dtype check (L2)
+def stream_dtype(ctx, reqs, pending):
+    """the translated `_check_rescale_dtype` against the real helper on a grid (slopes of both signs)"""
+    from highdicom import pixels as hp
+    f = getattr(hp, '_check_rescale_dtype', None)
+    if f is None:
+        ctx.note('L2 helper _check_rescale_dtype not found; skipped')
+        return
+    slopes = [Fraction(x) for x in (1, -1, 2, -2, 3, -3, 256, -256)] + [Fraction(1, 2), Fraction(-3, 2)]
+    icpts = [Fraction(x) for x in (0, 1, -1, 100, -100, 255, 65535, -32768)] + [Fraction(1, 4)]
+    outs = ['uint8', 'int8', 'uint16', 'int16', 'int32', 'float32', 'float64']
+    ins = [('uint8', None), ('uint8', (0, 15)), ('int8', None), ('uint16', None), ('uint16', (0, 4095)), ('int16', None),
+           ('int16', (-2048, 2047)), ('float32', None)]
+    r = ctx.rng('dtype', 0)
+    grid = list(itertools.product(slopes, icpts, outs, ins))
+    if ctx.tier == 'quick':
+        grid = r.sample(grid, 600)
+    else:
+        ctx.exhaustive.append(f'_check_rescale_dtype: {len(grid)} cells (10 slopes x 9 intercepts x 7 output x 8 input types/ranges)')
+    for m, b, out, (inn, rng_) in grid:
+        od, idt = np.dtype(out), np.dtype(inn)
+        res = call(f, input_dtype=idt, output_dtype=od, intercept=float(b), slope=float(m), input_range=rng_)
+        oi = np.iinfo(od) if od.kind in 'iu' else None
+        ii = np.iinfo(idt) if idt.kind in 'iu' else None
+        reqs.append(('checkRescaleDtype', {'slope': fs(m), 'intercept': fs(b), 'has_range': rng_ is not None,
+                                           'rmin': rng_[0] if rng_ else 0, 'rmax': rng_[1] if rng_ else 0, 'out_kind': od.kind, 'in_kind': idt.kind,
+                                           'out_max': int(oi.max) if oi else 0, 'out_min': int(oi.min) if oi else 0,
+                                           'in_max': int(ii.max) if ii else 0, 'in_min': int(ii.min) if ii else 0}))
+        pending.append(({'stream': 'dtype', 'slope': fs(m), 'intercept': fs(b), 'out': out, 'in': inn, 'range': rng_, 'layer': 'L2',
+                         'what': '_check_rescale_dtype'}, True if res[0] == 'ok' else 'err'))
+        ctx.case(dtype_check=out, dtype_outcome=res[0])
+        # oracle: an accepted integer type must hold both ends of the range (and every value in between)
+        if res[0] == 'ok' and od.kind in 'iu' and idt.kind in 'iu':
+            lo, hi = rng_ if rng_ else (int(ii.min), int(ii.max))
+            ends = [m * lo + b, m * hi + b]
+            if min(ends) < oi.min or max(ends) > oi.max or m.denominator != 1 or b.denominator != 1:
+                ctx.fail({'stream': 'dtype', 'slope': fs(m), 'intercept': fs(b), 'out': out, 'in': inn, 'range': rng_},
+                         {'why': 'integer output type accepted although it cannot hold the rescaled range', 'ends': [str(e) for e in ends]},
+                         site='_check_rescale_dtype')
